@@ -10,11 +10,11 @@ from ..ref import refsem
 ID = 'C06'
 LEVEL = 'exploration'
 SALTS = 8
-RULE = ('each run = (o) its slice of the exhaustive enumeration of all branch histories of depth 4 (thorough: 5) over a 19-operation alphabet '
-        '(sentence nodes over 6 constant lists x 2 worlds, quantifier-initial sentences, 3 access nodes, copy, fork; every target branch), '
+RULE = ('each run = (o) its slice of the exhaustive enumeration of all branch histories of depth 4 (thorough: 5) over a 21-operation alphabet '
+        '(sentence nodes over 6 constant lists x 2 worlds, quantifier-initial sentences, 3 access nodes, copy, fork, a new root branch, bulk extend() from another branch; every target branch), '
         'checked like (i); (i) 4 branch histories of <=10 operations (append a sentence node mentioning 0-3 constants from a 7-constant '
         'pool incl. subscripts in a seeded order, at a seeded world / no world; append an access node; copy(); fork-style copy '
-        'with parent) with, after EVERY operation and on EVERY live branch, new_constant() absent from all sentences on the '
+        'with parent; a new root branch; extend() / += from another Branch object) with, after EVERY operation and on EVERY live branch, new_constant() absent from all sentences on the '
         'branch, new_world() absent from all nodes, and the published constants/worlds equal to the occurring ones; (ii) one '
         'whole proof (generated argument, biased to witness-introducing quantifier / modal / serial steps, constants in '
         'non-alphabetical first-appearance order) where after every step any constant (world) introduced by a ticking quantifier '
@@ -29,7 +29,7 @@ def plan(tier):
 
 ALPHA = ([['sent', cs, w, None, False] for cs in ([], [0], [3], [4], [6], [3, 0]) for w in (None, 1)] +
          [['sent', cs, None, True, True] for cs in ([0], [3])] +
-         [['access', 0, 1], ['access', 1, 0], ['access', 2, 5]] + [['copy'], ['fork']])
+         [['access', 0, 1], ['access', 1, 0], ['access', 2, 5]] + [['copy'], ['fork'], ['new'], ['extend', 1]])
 
 def enum_depth(tier):
     return 4 if tier == 'quick' else 5
@@ -51,7 +51,7 @@ def decode_history(code, depth):
             return None
         t = ALPHA[a]
         ops.append([t[0], b] + [list(x) if isinstance(x, list) else x for x in t[1:]])
-        if t[0] in ('copy', 'fork'):
+        if t[0] in ('copy', 'fork', 'new'):
             nb += 1
     return ops
 
